@@ -60,6 +60,90 @@ Definition chosen_realm (t0 : table) (domain : list Z) : list Z :=
 Lemma lbeq_list_eqb a b : lbeq a b = list_eqb a b.
 Proof. reflexivity. Qed.
 
+(* ---- the MD5 inputs ---- *)
+Lemma pc_lit vars t qp bs : piece_chunk vars t qp (0, bs) = AOk (Some bs).
+Proof. reflexivity. Qed.
+Lemma pc_key vars t qp key : piece_chunk vars t qp (2, key) = match tbl_get key t with Some v => AOk (Some v) | None => ACrash end.
+Proof. reflexivity. Qed.
+Lemma pc_cond vars t qp bs : piece_chunk vars t qp (10, bs) = if qp then AOk None else AOk (Some bs).
+Proof. destruct qp; reflexivity. Qed.
+Lemma pc_var0 v0 v1 v2 v3 v4 v5 t qp : piece_chunk [v0; v1; v2; v3; v4; v5] t qp (1, [0]) = AOk (Some v0).
+Proof. reflexivity. Qed.
+Lemma pc_var1 v0 v1 v2 v3 v4 v5 t qp : piece_chunk [v0; v1; v2; v3; v4; v5] t qp (1, [1]) = AOk (Some v1).
+Proof. reflexivity. Qed.
+Lemma pc_var2 v0 v1 v2 v3 v4 v5 t qp : piece_chunk [v0; v1; v2; v3; v4; v5] t qp (1, [2]) = AOk (Some v2).
+Proof. reflexivity. Qed.
+Lemma pc_var3 v0 v1 v2 v3 v4 v5 t qp : piece_chunk [v0; v1; v2; v3; v4; v5] t qp (1, [3]) = AOk (Some v3).
+Proof. reflexivity. Qed.
+Lemma pc_var4 v0 v1 v2 v3 v4 v5 t qp : piece_chunk [v0; v1; v2; v3; v4; v5] t qp (1, [4]) = AOk (Some v4).
+Proof. reflexivity. Qed.
+Lemma pc_var5 v0 v1 v2 v3 v4 v5 t qp : piece_chunk [v0; v1; v2; v3; v4; v5] t qp (1, [5]) = AOk (Some v5).
+Proof. reflexivity. Qed.
+
+Ltac pcs := cbn [piece_chunks]; rewrite ?pc_lit, ?pc_key, ?pc_cond, ?pc_var0, ?pc_var1, ?pc_var2, ?pc_var3, ?pc_var4, ?pc_var5.
+
+Lemma comp0 : forall node realm pw d h1 h2 t qp,
+  md5_comp 0 [node; realm; pw; d; h1; h2] t qp = AOk (md5_spec (node ++ COLON ++ realm ++ COLON ++ pw)).
+Proof.
+  intros. unfold md5_comp.
+  change (nth 0 digest_md5_pieces []) with [(1, [0]); (0, [58]); (1, [1]); (0, [58]); (1, [2])].
+  pcs. cbn [abind]. rewrite md5_any_split_lemma. cbn [of_h concat]. rewrite app_nil_r. reflexivity.
+Qed.
+
+Lemma comp1 : forall node realm pw d h1 h2 t qp nonce cn,
+  tbl_get s_nonce t = Some nonce -> tbl_get s_cnonce t = Some cn ->
+  md5_comp 1 [node; realm; pw; d; h1; h2] t qp = AOk (md5_spec (d ++ COLON ++ nonce ++ COLON ++ cn)).
+Proof.
+  intros * Hn Hc. unfold md5_comp.
+  change (nth 1 digest_md5_pieces []) with [(1, [3]); (0, [58]); (2, s_nonce); (0, [58]); (2, s_cnonce)].
+  pcs. rewrite Hn, Hc. cbn [abind]. rewrite md5_any_split_lemma. cbn [of_h concat]. rewrite app_nil_r. reflexivity.
+Qed.
+
+Lemma comp2 : forall node realm pw d h1 h2 t qp uri,
+  tbl_get s_digest_uri t = Some uri ->
+  md5_comp 2 [node; realm; pw; d; h1; h2] t qp =
+    AOk (md5_spec (s_AUTHENTICATE ++ COLON ++ uri ++ (if qp then [] else COLON ++ repeat 48 32))).
+Proof.
+  intros * Hu. unfold md5_comp.
+  change (nth 2 digest_md5_pieces []) with [(0, s_AUTHENTICATE ++ [58]); (2, s_digest_uri); (10, 58 :: repeat 48 32)].
+  pcs. rewrite Hu. destruct qp; cbn [abind]; rewrite md5_any_split_lemma; cbn [of_h concat]; rewrite ?app_nil_r, <- ?app_assoc; reflexivity.
+Qed.
+
+Lemma comp3 : forall node realm pw d h1 h2 t qp nonce cn nc qop,
+  tbl_get s_nonce t = Some nonce -> tbl_get s_cnonce t = Some cn -> tbl_get s_nc t = Some nc -> tbl_get s_qop t = Some qop ->
+  md5_comp 3 [node; realm; pw; d; h1; h2] t qp =
+    AOk (md5_spec (h1 ++ COLON ++ nonce ++ COLON ++ nc ++ COLON ++ cn ++ COLON ++ qop ++ COLON ++ h2)).
+Proof.
+  intros * Hn Hc Hnc Hq. unfold md5_comp.
+  change (nth 3 digest_md5_pieces []) with [(1, [4]); (0, [58]); (2, s_nonce); (0, [58]); (2, s_nc); (0, [58]); (2, s_cnonce); (0, [58]); (2, s_qop); (0, [58]); (1, [5])].
+  pcs. rewrite Hn, Hc, Hnc, Hq. cbn [abind]. rewrite md5_any_split_lemma. cbn [of_h concat]. rewrite app_nil_r. reflexivity.
+Qed.
+
+Definition fval (t : table) (kq : list Z * Z) : list Z :=
+  fst kq ++ [61] ++ (let v := match tbl_get (fst kq) t with Some v => v | None => [] end in
+                     if snd kq =? 0 then v else [34] ++ v ++ [34]).
+Lemma add_key_first t kq : add_key t [] kq = fval t kq.
+Proof. destruct kq as [k q]. reflexivity. Qed.
+Lemma add_key_next t buf kq : buf <> [] -> add_key t buf kq = buf ++ [44] ++ fval t kq.
+Proof.
+  intros Hne. destruct kq as [k q]. unfold add_key, fval. cbn [fst snd].
+  replace (zlen buf =? 0) with false; [reflexivity|].
+  symmetry. apply Z.eqb_neq. destruct buf; [contradiction|]. rewrite zlen_cons. pose proof (zlen_nonneg buf). lia.
+Qed.
+Lemma fval_ne t kq : fval t kq <> [].
+Proof. unfold fval. intro K. apply (f_equal (@length Z)) in K. rewrite !app_length in K. cbn [length] in K. lia. Qed.
+Lemma fold_add_key t : forall fields buf, buf <> [] ->
+  fold_left (add_key t) fields buf = buf ++ concat (map (fun kq => [44] ++ fval t kq) fields).
+Proof.
+  induction fields as [|kq r IH]; intros buf Hne; cbn [fold_left map concat]; [now rewrite app_nil_r|].
+  rewrite add_key_next by exact Hne. rewrite IH by (destruct buf; [contradiction|discriminate]).
+  rewrite <- !app_assoc. reflexivity.
+Qed.
+Lemma fold_add_key_first t kq r :
+  fold_left (add_key t) (kq :: r) [] = fval t kq ++ concat (map (fun kq => [44] ++ fval t kq) r).
+Proof. cbn [fold_left]. rewrite add_key_first. apply fold_add_key. apply fval_ne. Qed.
+Ltac ne := let K := fresh in intro K; apply (f_equal (@length Z)) in K; rewrite ?app_length in K; cbn [length] in K; lia.
+
 Lemma digest_lemma : forall challenge jid password rnd t0 node nonce,
   parse_digest_challenge challenge = AOk t0 ->
   tbl_get s_nonce t0 = Some nonce ->
@@ -118,36 +202,39 @@ Proof.
   set (realm := chosen_realm t0 domain) in *.
   set (plain := list_eqb qop s_auth).
   (* the four MD5 computations *)
-  unfold md5_comp.
-  change (nth 0 digest_md5_pieces []) with [(1, [0]); (0, [58]); (1, [1]); (0, [58]); (1, [2])].
-  change (nth 1 digest_md5_pieces []) with [(1, [3]); (0, [58]); (2, s_nonce); (0, [58]); (2, s_cnonce)].
-  change (nth 2 digest_md5_pieces []) with [(0, s_AUTHENTICATE ++ [58]); (2, s_digest_uri); (10, 58 :: repeat 48 32)].
-  change (nth 3 digest_md5_pieces []) with [(1, [4]); (0, [58]); (2, s_nonce); (0, [58]); (2, s_nc); (0, [58]); (2, s_cnonce); (0, [58]); (2, s_qop); (0, [58]); (1, [5])].
-  cbn [piece_chunks piece_chunk Z.leb Z.compare Pos.compare Pos.compare_cont andb Z.modulo Z.div_eucl Z.pos_div_eucl Z.eqb Pos.eqb nthz nth Z.to_nat Pos.to_nat Pos.iter_op Nat.add abind
-       Z.ltb Z.sub Z.add Z.opp Z.pos_sub Z.succ_double Z.pred_double Z.double Pos.pred_double fst snd Z.mul Pos.mul Pos.add Pos.succ Z.leb Z.gtb Z.geb].
-  rewrite md5_any_split_lemma. cbn [of_h abind].
-  rewrite G4nonce, G4cnonce. cbn [abind]. rewrite md5_any_split_lemma. cbn [of_h abind].
-  rewrite G4uri. cbn [abind].
-  set (ha1 := md5_spec (concat [md5_spec (concat [node; [58]; realm; [58]; pw]); [58]; nonce; [58]; cn])).
-  assert (Hha1 : ha1 = md5_spec (A1 md5_spec node realm pw nonce cn)).
-  { unfold ha1, A1, COLON. cbn [concat]. rewrite ?app_nil_r. rewrite <- ?app_assoc. reflexivity. }
-  destruct plain eqn:Eplain; cbn [abind andb]; rewrite md5_any_split_lemma; cbn [of_h abind];
-    rewrite G4nonce, G4nc, G4cnonce, G4qop; cbn [abind]; rewrite md5_any_split_lemma; cbn [of_h abind].
-  all: rewrite !digest_hex_spec by apply md5_spec_bytes.
-  all: unfold digest_response; fold uri.
-  all: change digest_reply_fields with
-         [(s_username, 1); (s_realm, 1); (s_nonce, 1); (s_cnonce, 1); (s_nc, 0); (s_qop, 0); (s_digest_uri, 1); (s_response, 0); (s_charset, 0)].
-  all: cbn [fold_left add_key].
-  all: rewrite !tbl_get_add; cbn [list_eqb Z.eqb Pos.eqb andb].
-  all: rewrite G4user, G4realm, G4nonce, G4cnonce, G4nc, G4qop, G4uri, G4charset.
-  all: do 2 f_equal.
-  all: unfold join_commas, directive, quoted, response_value, KD, COLON; change digest_nc with s_nc1.
-  all: cbn [zlen length app Z.of_nat Z.eqb Pos.of_succ_nat].
-  all: rewrite <- !app_assoc; cbn [app].
-  all: repeat f_equal.
-  all: rewrite Hha1.
-  all: cbn [concat]; rewrite ?app_nil_r, <- ?app_assoc; cbn [app].
-  all: unfold A2, COLON.
-  all: idtac "GOALS".
-  Show.
-Abort.
+  rewrite comp0. cbn [abind].
+  rewrite (comp1 _ _ _ _ _ _ _ _ nonce cn G4nonce G4cnonce). cbn [abind].
+  rewrite (comp2 _ _ _ _ _ _ _ _ uri G4uri). cbn [abind].
+  rewrite (comp3 _ _ _ _ _ _ _ _ nonce cn digest_nc qop G4nonce G4cnonce G4nc G4qop). cbn [abind].
+  rewrite !digest_hex_spec by apply md5_spec_bytes.
+  assert (EA2 : (if plain then [] else COLON ++ repeat 48 32) =
+                (if lbeq qop s_auth_int || lbeq qop s_auth_conf then COLON ++ repeat 48 32 else [])).
+  { unfold plain. destruct Hqop as [->|[->| ->]]; reflexivity. }
+  rewrite EA2.
+  change digest_nc with s_nc1.
+  set (rv := HEX (md5_spec (HEX (md5_spec (md5_spec (node ++ COLON ++ realm ++ COLON ++ pw) ++ COLON ++ nonce ++ COLON ++ cn)) ++
+                 COLON ++ nonce ++ COLON ++ s_nc1 ++ COLON ++ cn ++ COLON ++ qop ++ COLON ++
+                 HEX (md5_spec (s_AUTHENTICATE ++ COLON ++ uri ++
+                    (if lbeq qop s_auth_int || lbeq qop s_auth_conf then COLON ++ repeat 48 32 else [])))))).
+  assert (Erv : rv = response_value md5_spec node realm pw nonce cn s_nc1 qop uri) by reflexivity.
+  set (t5 := tbl_add s_response rv t4).
+  assert (G5 : forall k, list_eqb k s_response = false -> tbl_get k t5 = tbl_get k t4).
+  { intros k Hk. unfold t5. rewrite tbl_get_add, Hk. reflexivity. }
+  assert (G5r : tbl_get s_response t5 = Some rv) by (unfold t5; rewrite tbl_get_add; reflexivity).
+  change digest_reply_fields with
+    [(s_username, 1); (s_realm, 1); (s_nonce, 1); (s_cnonce, 1); (s_nc, 0); (s_qop, 0); (s_digest_uri, 1); (s_response, 0); (s_charset, 0)].
+  rewrite fold_add_key_first.
+  cbn [map concat]. unfold fval. cbn [fst snd].
+  rewrite G5r, !G5 by reflexivity.
+  rewrite G4user, G4realm, G4nonce, G4cnonce, G4nc, G4qop, G4uri, G4charset, Erv.
+  change (1 =? 0) with false. change (0 =? 0) with true. cbv iota.
+  do 2 f_equal.
+  unfold digest_response. fold uri. cbn [join_commas]. unfold directive, quoted.
+  change digest_nc with s_nc1.
+  rewrite <- !app_assoc. rewrite ?app_nil_r. reflexivity.
+Qed.
+
+Lemma digest_no_nonce : forall challenge jid password rnd t0,
+  parse_digest_challenge challenge = AOk t0 -> tbl_get s_nonce t0 = None ->
+  sasl_digest_md5 challenge jid password rnd = ANull.
+Proof. intros * Hp Hn. unfold sasl_digest_md5. rewrite Hp. cbn [abind]. rewrite Hn. reflexivity. Qed.
